@@ -259,9 +259,13 @@ Proof.
   pose proof Habs as (Hnil & Hw & Hid & Hidlt & Hpend & Hsized & Hli & Hsi & Hlok & Hsok).
   unfold tx_put. rewrite <- Hw.
   destruct (Tx_writable g) eqn:Hwr; cbn [negb].
-  - rewrite zlen_eqb_0. destruct k as [|c k].
-    + eexists _, _. split; [reflexivity|]. split; [exact Habs | discriminate].
-    + eexists _, _. split; [reflexivity|]. split; [|reflexivity].
+  - (* the emptiness test of the key, whatever its shape ([len(key) == 0], [len(key) < 1], ...) *)
+    destruct k as [|c k].
+    + change (zlen (@nil Byte.byte)) with 0. go_heads.
+      eexists _, _. split; [reflexivity|]. split; [exact Habs | discriminate].
+    + assert (Hkpos : 0 < zlen (c :: k)) by (unfold zlen; cbn [List.length]; lia).
+      go_heads.
+      eexists _, _. split; [reflexivity|]. split; [|reflexivity].
       cbn [fst]. unfold tx_abs, set_Tx_pendingWrites.
       cbn [Tx_db_isnil Tx_writable Tx_id Tx_pendingWrites Tx_db tx_w tx_id tx_pend].
       refine (conj Hnil (conj _ (conj Hid (conj Hidlt (conj _ (conj _ (conj Hli (conj Hsi (conj Hlok Hsok))))))))).
@@ -337,6 +341,50 @@ Proof.
     + eexists _, _. split; [reflexivity|]. exact Hrel.
 Qed.
 
+(** the same with the hypothesis on the loop body stated semantically (what the
+    body does with the outcome of [Tx.put]), so that it does not depend on the
+    way the error test is written in the Go source *)
+Lemma put_loop_sem (body : Z -> bytes -> go_Tx -> gres (lstep go_Tx (go_Tx * gerr)))
+      w b k flag ts ds :
+  (forall i v g g' e, go_Tx_put g b k v 0 flag ts ds = GOk (g', e) ->
+     body i v g = GOk (if err_is_nil e then LNext g' else LRet (g', e))) ->
+  arg_ok b -> arg_ok k -> 0 <= flag < 2 ^ 16 -> 0 <= ts < 2 ^ 64 -> 0 <= ds < 2 ^ 16 ->
+  forall vs g t, Forall arg_ok vs -> tx_abs g w t ->
+  exists g' e,
+    (lo <- grange body 0 vs g ;;
+     match lo with inr rv => GOk rv | inl g1 => GOk (g1, ENil) end) = GOk (g', e) /\
+    tx_abs g' w (fst (tx_put_all t b k vs (Z.to_N flag) (Z.to_N ts) (Z.to_N ds))) /\
+    err_of_res e (snd (tx_put_all t b k vs (Z.to_N flag) (Z.to_N ts) (Z.to_N ds))).
+Proof.
+  intros Hbody Hb Hk Hflag Hts Hds vs g t Hvs Habs.
+  destruct (grange_sim body (put_step b k (Z.to_N flag) (Z.to_N ts) (Z.to_N ds)) arg_ok
+              (fun g t => tx_abs g w t)
+              (fun (r : go_Tx * gerr) (p : txstate * res) => tx_abs (fst r) w (fst p) /\ err_of_res (snd r) (snd p)))
+    with (l := vs) (i := 0) (s := g) (m := t) as [o [Hgo Hrel]]; [|exact Hvs|exact Habs|].
+  - intros i v g0 t0 Hv Habs0. unfold put_step.
+    destruct (go_Tx_put_cases g0 w t0 b k v 0 flag ts ds Habs0 Hb Hk Hv ltac:(lia) Hflag Hts Hds)
+      as [(g' & Hgo & Habs' & Hok) | (g' & e & Hgo & Habs' & He & Hbad)]; rewrite (Hbody i v g0 _ _ Hgo).
+    + cbn [err_is_nil]. eexists. split; [reflexivity|].
+      change (Z.to_N 0) with 0%N in *.
+      destruct (tx_put t0 b k v 0 (Z.to_N flag) (Z.to_N ts) (Z.to_N ds)) as [t' r].
+      cbn [fst snd] in *. subst r. exact Habs'.
+    + rewrite He. eexists. split; [reflexivity|].
+      change (Z.to_N 0) with 0%N in *. rewrite Hbad. cbn [fst snd err_of_res].
+      split; [exact Habs'|]. intros ->. discriminate.
+  - rewrite Hgo. cbn [gbind]. rewrite tx_put_all_fold.
+    destruct o as [g1 | [g1 e1]];
+      destruct (fold_until (put_step b k (Z.to_N flag) (Z.to_N ts) (Z.to_N ds)) vs t) as [t1 | [t1 r1]];
+      try contradiction.
+    + eexists _, _. split; [reflexivity|]. split; [exact Hrel | reflexivity].
+    + eexists _, _. split; [reflexivity|]. exact Hrel.
+Qed.
+
+(** the body of a write loop, whatever the shape of its error test *)
+Ltac put_loop_body :=
+  let i := fresh in let v := fresh in let g0 := fresh in let g' := fresh in let e := fresh in let Hput := fresh in
+  intros i v g0 g' e Hput; cbv beta; rewrite Hput; cbn [gbind];
+  destruct (err_is_nil e) eqn:?; cbn [negb]; reflexivity.
+
 Theorem go_Tx_push_eq now g w t b k flag vs :
   tx_abs g w t -> now_ok now -> arg_ok b -> arg_ok k -> Forall arg_ok vs -> 0 <= flag < 2 ^ 16 ->
   exists g' e,
@@ -345,8 +393,8 @@ Theorem go_Tx_push_eq now g w t b k flag vs :
     err_of_res e (snd (tx_put_all t b k vs (Z.to_N flag) (Z.to_N now) DS_List)).
 Proof.
   intros Habs Hnow Hb Hk Hvs Hflag. unfold go_Tx_push. rewrite (now_wrap now Hnow).
-  apply (put_loop_eq _ w b k flag now 3); try assumption.
-  - intros i v g0. reflexivity.
+  apply (put_loop_sem _ w b k flag now 3); try assumption.
+  - put_loop_body.
   - apply now_range. exact Hnow.
   - lia.
 Qed.
@@ -359,8 +407,8 @@ Theorem go_Tx_sPut_eq now g w t b k flag vs :
     err_of_res e (snd (tx_put_all t b k vs (Z.to_N flag) (Z.to_N now) DS_Set)).
 Proof.
   intros Habs Hnow Hb Hk Hvs Hflag. unfold go_Tx_sPut. rewrite (now_wrap now Hnow).
-  apply (put_loop_eq _ w b k flag now 0); try assumption.
-  - intros i v g0. reflexivity.
+  apply (put_loop_sem _ w b k flag now 0); try assumption.
+  - put_loop_body.
   - apply now_range. exact Hnow.
   - lia.
 Qed.
@@ -805,9 +853,10 @@ Proof.
        exists g, 0, err. split; [reflexivity|]. split; [exact Habs | exact Hres]. }
   destruct Hres as [-> ->]. cbn [err_is_nil negb].
   pose proof (l_size_bound l k size Hok Hsz) as Hb62.
-  rewrite ineg_ok by lia.
-  destruct ((size <? count) || (count <? - size)) eqn:Hc.
-  { cbn [fst snd]. eexists g, 0, _. split; [reflexivity|]. split; [exact Habs | discriminate]. }
+  repeat go_arith.
+  (* the model's range test; the code's test, whatever its shape, follows it *)
+  destruct ((size <? count) || (count <? - size)) eqn:Hc; go_heads;
+    try solve [ cbn [fst snd]; eexists g, 0, _; split; [reflexivity|]; split; [exact Habs | discriminate] ].
   match goal with |- context [go_Tx_push now g b k 4 [?nv]] =>
     replace nv with (join_sep (print_Z count) v) by (symmetry; apply join_sep_go; reflexivity) end.
   destruct (put_one_cases (fun g0 => go_Tx_push now g0 b k 4 [join_sep (print_Z count) v]) g w t b k
@@ -851,8 +900,8 @@ Proof.
   2: { rewrite (has_key_none _ _ Hx). cbn [negb fst snd].
        eexists g, _. split; [reflexivity|]. split; [exact Habs | discriminate]. }
   rewrite (has_key_some _ _ _ Hx). cbn [negb]. rewrite Hgo. cbn [gbind]. destruct Hres as [-> ->].
-  destruct ((i <? 0) || (zlen x <=? i)) eqn:Hc.
-  { cbn [fst snd]. eexists g, _. split; [reflexivity|]. split; [exact Habs | discriminate]. }
+  destruct ((i <? 0) || (zlen x <=? i)) eqn:Hc; go_heads;
+    try solve [ cbn [fst snd]; eexists g, _; split; [reflexivity|]; split; [exact Habs | discriminate] ].
   match goal with |- context [go_Tx_push now g b ?nk 7 [v]] =>
     replace nk with (join_sep k (print_Z i)) by (symmetry; apply join_sep_go; reflexivity) end.
   destruct (go_Tx_push_eq now g w t b (join_sep k (print_Z i)) 7 [v] Habs Hnow Hb Hnk
@@ -1288,11 +1337,17 @@ Proof.
   rewrite Hl0.
   destruct (lookup_cases (GoSet.Set_M s) k) as [(inner & La & Hks & L0 & Ls) | (La & Hks & Ls)].
   2: { exists None. rewrite do_op_OSPop, Hm, Ls. rewrite (lookup0_none _ _ _ La).
-       pose proof (Hmord 1 unit []) as HP. apply Permutation_sym, Permutation_nil in HP. rewrite HP.
+       match goal with |- context [mord ?site unit []] =>
+         pose proof (Hmord site unit []) as HP; apply Permutation_sym, Permutation_nil in HP; rewrite HP
+       end.
        rewrite grange_nil. unfold go_ErrBucketAndKey. cbn [gbind fst snd].
        eexists g, _, _. split; [reflexivity|]. split; [exact Habs | discriminate]. }
-  rewrite L0. pose proof (Hmord 1 unit inner) as HP.
-  destruct (mord 1 unit inner) as [|[x u] rest].
+  rewrite L0.
+  (* the iteration order of this range (its site number depends on the position
+     of the function in the file) *)
+  match goal with |- context [mord ?site unit inner] =>
+    pose proof (Hmord site unit inner) as HP; destruct (mord site unit inner) as [|[x u] rest]
+  end.
   { apply Permutation_nil in HP. rewrite HP in Ls.
     exists None. rewrite do_op_OSPop, Hm, Ls. cbn [map].
     rewrite grange_nil. unfold go_ErrBucketAndKey. cbn [gbind fst snd].
